@@ -383,11 +383,11 @@ def log_integral(f, lo, hi, breaks=(), per_decade=6):
     t = np.linspace(np.log(lo), np.log(hi), int(np.ceil(np.log10(hi / lo) * per_decade)) + 1)
     e = [np.exp(t)]
     for b in breaks:
-        if lo < b < hi:
+        if lo <= b <= hi:
             off = b * 0.25 * 0.5 ** np.arange(0, 44)
             e += [[b], b - off, b + off]
     edges = np.unique(np.concatenate([np.atleast_1d(x) for x in e]))
-    edges = edges[(edges >= lo) & (edges <= hi)]
+    edges = np.concatenate([[lo], edges[(edges > lo) & (edges < hi)], [hi]])
     return _panels(f, edges).sum()
 
 
@@ -413,7 +413,7 @@ def _configs(rng, cls, d, n_random):
         fixed = [dict(nu=(d - 1) / 2), dict(nu=(d - 1) / 2 + 1.5)]
         rnd = [lambda: dict(nu=float(rng.uniform((d - 1) / 2, (d - 1) / 2 + 5)))]
     elif cls == "JBessel":
-        fixed = [dict(nu=d / 2), dict(nu=d / 2 - 0.4), dict(nu=d / 2 + 2.0)]
+        fixed = [dict(nu=d / 2), dict(nu=d / 2 - 0.4), dict(nu=d / 2 + 2.0), dict(nu=d / 2 + 6.0)]
         rnd = [lambda: dict(nu=float(rng.uniform(d / 2 - 0.5, d / 2 + 6)))]
     elif cls in ("TPLGaussian", "TPLExponential"):
         fixed = [dict(hurst=0.3), dict(hurst=0.8, len_low=0.4), dict(hurst=0.5, len_low=2.0)]
@@ -486,8 +486,13 @@ def fourier_pair_search(ctx, n_random, ks_rel, viol):
                             tol = 1e-6 if beta >= 0 else 2e-4
                             worst["analytic"] = max(worst["analytic"], abs(got - want)) if beta >= 0 else worst["analytic"]
                             if not abs(got - want) <= tol:
-                                viol.append({"key": "spectrum:JBessel", "what": "inverse transform of the reported density "
-                                             "differs from correlation", "case": dict(case, r=r, correlation=want, from_density=got)})
+                                import scipy.special as sps
+                                cut = sps.gamma(m.nu - d / 2 + 1) > 100.0
+                                viol.append({"key": "spectrum:JBessel-gamma-cut" if cut else "spectrum:JBessel",
+                                             "what": ("JBessel nu > d/2+4.89: the divisor min(gamma(nu-d/2+1), 100) is cut, the density "
+                                                      "is gamma(nu-d/2+1)/100 times the transform of the correlation") if cut else
+                                             "inverse transform of the reported density differs from correlation",
+                                             "case": dict(case, r=r, correlation=want, from_density=got)})
                         continue
                     ks = np.asarray(ks_rel) / ell
                     code = np.asarray(m.spectral_density(ks), dtype=float)
@@ -524,7 +529,9 @@ def fourier_pair_search(ctx, n_random, ks_rel, viol):
 
 
 def near_origin_search(ctx, viol):
-    """A': the hankel default for 0 < k*len <= 0.02 (D17) — reported once per class"""
+    """A': the hankel default for 0 < k*len <= 0.02 (D17) — reported once per class.  Reference: the value at the
+    origin where the correlation is integrable (S(k) = S(0) (1 - O((k len)^2)) on this band), otherwise the
+    quadrature at k*len in {0.01, 0.02}."""
     ev = 0
     for cls in CLASSES:
         if cls in ANALYTIC:
@@ -539,9 +546,13 @@ def near_origin_search(ctx, viol):
             sup = ell if cls in COMPACT else None
             with warnings.catch_warnings(), np.errstate(all="ignore"):
                 warnings.simplefilter("ignore")
-                ks = np.array([1e-3, 3e-3, 1e-2, 2e-2]) / ell
+                if cls in COMPACT or cls == "Stable":
+                    ks = np.array([1e-3, 3e-3, 1e-2, 2e-2]) / ell
+                    ref = np.full(len(ks), density_at_zero(m.correlation, d, ell, sup))
+                else:
+                    ks = np.array([1e-2, 2e-2]) / ell
+                    ref = np.array([radial_ft(m.correlation, d, k, ell, sup, ntail=20) for k in ks])
                 code = np.asarray(m.spectral_density(ks), dtype=float)
-                ref = np.array([radial_ft(m.correlation, d, k, ell, sup) for k in ks])
             ev += len(ks)
             peak = np.max(np.abs(ref))
             i = int(np.argmax(np.abs(code - ref)))
@@ -581,8 +592,12 @@ def pdf_search(ctx, n_random, viol):
                     lnp = np.asarray(m.ln_spectral_rad_pdf(k), dtype=float)
                     ev += 4 * len(k)
                     # spectrum = var * density (exact: one multiplication)
-                    if not np.array_equal(spec, dens * m.var):
+                    if not np.array_equal(spec, dens * m.var, equal_nan=True):
                         viol.append({"key": f"spectrum-def:{cls}", "what": "spectrum != var * spectral_density", "case": case})
+                    if not np.isfinite(dens).all():
+                        i = int(np.argmin(np.isfinite(dens)))
+                        viol.append({"key": f"density-nonfinite:{cls}", "what": "spectral_density is NaN/inf at a finite wave number",
+                                     "case": dict(case, k=float(k[i]), k_len=float(k[i] * ell), reported=repr(dens[i]))})
                     # definition of the radial pdf from the independent surface-area formula
                     import scipy.special as sps
                     area = 2 * np.pi ** (d / 2) / sps.gamma(d / 2) * k ** (d - 1)
@@ -609,7 +624,16 @@ def pdf_search(ctx, n_random, viol):
                         ev += 1
                         worst_int[kind] = max(worst_int[kind], abs(total - 1.0))
                         if not abs(total - 1.0) <= tol:
-                            key = f"rad-pdf-mass:{cls}" + ("-nu>20" if cls == "Matern" and m.nu > 20 else "")
+                            key = f"rad-pdf-mass:{cls}"
+                            if cls == "Matern" and m.nu > 20:
+                                key = "spectrum:Matern-nu>20"
+                            if cls == "JBessel":
+                                import scipy.special as sps
+                                if sps.gamma(m.nu - d / 2 + 1) > 100.0:
+                                    key = "spectrum:JBessel-gamma-cut"
+                            probe = np.asarray(m.spectral_density(np.geomspace(1e-8, 1e-2, 80) / ell), dtype=float)
+                            if not np.isfinite(probe).all():
+                                key = f"density-nonfinite:{cls}"
                             viol.append({"key": key, "what": f"integral of spectral_rad_pdf = {total!r}, expected 1 (tol {tol})",
                                          "case": dict(case, integral=float(total))})
                     # cdf / ppf
@@ -652,36 +676,46 @@ def pdf_search(ctx, n_random, viol):
 
 
 def _pdf_mass(m, cls, d, ell):
-    """(integral of spectral_rad_pdf over (0, inf), tolerance, kind) or (None, ...) when not attempted"""
+    """(integral of the radial pdf over (0, inf), tolerance, kind) or (None, ...) when not attempted.
+    For d > 1 the code zeroes the pdf on the absolute band k <= 1e-8; the mass of that band (which matters only for
+    the TPL models, whose density is singular at the origin) is added from spectral_density so that the check is about
+    the pdf formula and not about the band."""
+    import scipy.special as sps
+    if cls not in ANALYTIC:
+        return None, None, "default"
     pdf = m.spectral_rad_pdf
-    if cls in ANALYTIC:
-        if cls == "JBessel":
-            if m.nu - d / 2 < -0.6:
-                return None, None, "analytic"
-            return log_integral(pdf, 1e-12 / ell, 1.0 / ell, breaks=(1.0 / ell,), per_decade=8), \
-                (1e-6 if m.nu >= d / 2 else 5e-4), "analytic"
-        if cls in ("TPLGaussian", "TPLExponential"):
-            H = m.hurst
-            if H < 0.25:
-                return None, None, "analytic"
-            hi = 10.0 ** min(60.0, 4.0 / H) / ell     # tail mass ~ K^(-2H)
-            br = []
-            if cls == "TPLGaussian":
-                br = [2 * np.sqrt(0.1) / m.len_up_rescaled] + ([] if np.isclose(m.len_low_rescaled, 0) else [2 * np.sqrt(0.1) / m.len_low_rescaled])
-            tol = 2e-3 if cls == "TPLGaussian" else 1e-6
-            return log_integral(pdf, 1e-12 / ell, hi, breaks=br), tol, "analytic"
-        if cls == "Matern":
-            hi = 10.0 ** min(80.0, 2.0 + 4.5 / min(m.nu, 3.0)) / ell
-            return log_integral(pdf, 1e-12 / ell, hi), 1e-6, "analytic"
-        if cls == "Integral":
-            hi = 10.0 ** min(80.0, 2.0 + 4.5 / min(m.nu, 3.0)) / ell
-            return log_integral(pdf, 1e-12 / ell, hi), 1e-6, "analytic"
-        if cls == "HyperSpherical":
-            # pdf ~ k^-2 tail: mass beyond K is ~ c/K; integrate to 1e7 and accept the 1e-5 tail
-            return log_integral(pdf, 1e-12 / ell, 1e6 / ell, per_decade=40), 1e-4, "analytic"
-        hi = (1e3 if cls == "Gaussian" else 1e12) / ell
-        return log_integral(pdf, 1e-12 / ell, hi), 1e-6, "analytic"
-    return None, None, "default"
+    area = 2 * np.pi ** (d / 2) / sps.gamma(d / 2)
+    raw = lambda k: area * k ** (d - 1) * np.abs(m.spectral_density(k))
+    lo, breaks, tol, per = 1e-12 / ell, [], 1e-6, 6
+    if cls == "JBessel":
+        if m.nu - d / 2 < -0.6:
+            return None, None, "analytic"
+        hi, breaks, per = 1.0 / ell, [1.0 / ell], 8
+        tol = 1e-6 if m.nu >= d / 2 else 5e-4
+    elif cls in ("TPLGaussian", "TPLExponential"):
+        H = m.hurst
+        if H < 0.25:
+            return None, None, "analytic"
+        hi = 10.0 ** max(min(60.0, 4.0 / H), 10.0) / ell   # tail mass ~ K^(-2H) (K^-1 for TPLExponential, H > 1/2)
+        lo = 10.0 ** (-max(min(60.0, 4.0 / H), 12.0)) / ell    # pdf ~ k^(min(2H, d)-1) at the origin
+        if cls == "TPLGaussian":
+            breaks = [2 * np.sqrt(0.1) / L for L in (m.len_up_rescaled, m.len_low_rescaled) if not np.isclose(L, 0)]
+            tol = 2e-3
+    elif cls in ("Matern", "Integral"):
+        dec = 3.5 / m.nu if cls == "Matern" else 7.0 / m.nu   # tails k^(-2nu-1), k^(-nu-1)
+        hi = 10.0 ** min(250.0, 3.0 + dec) / ell
+    elif cls == "HyperSpherical":
+        hi, tol, per = 1e6 / ell, 1e-4, 40            # k^-2 tail: mass beyond K ~ c/K
+    elif cls == "Gaussian":
+        hi = 1e3 / ell
+    else:
+        hi = 1e12 / ell
+    total = 0.0
+    if d > 1 and lo < 1e-8:
+        total += log_integral(raw, lo, 1e-8, per_decade=per)
+        lo = np.nextafter(1e-8, 1.0)
+    total += log_integral(pdf, lo, hi, breaks=breaks, per_decade=per)
+    return total, tol, "analytic"
 
 
 def mechanism_search(ctx, viol):
@@ -715,6 +749,7 @@ def search(ctx, deep=False):
     ev_a, worst = fourier_pair_search(ctx, n_random, ks_rel, viol)
     ctx.log(f"search A (Fourier pair) {ev_a} evaluations, worst errors {worst}")
     ev_o = near_origin_search(ctx, viol)
+    ctx.log(f"search A' (hankel default near the origin) {ev_o} evaluations")
     ev_b, worst_int = pdf_search(ctx, n_random, viol)
     ctx.log(f"search B-E (pdf/cdf/ppf) {ev_b} evaluations, worst |mass-1| {worst_int}")
     ev_f = mechanism_search(ctx, viol)
